@@ -180,6 +180,7 @@ func c04Body(c *mc.Ctx) {
 	vals, class := genValues(c, c.Tier == "thorough")
 	c.Class(modeNames[mode] + "/" + class)
 	c.Case(func() string { return fmt.Sprintf("mode=%s values=%s", modeNames[mode], rm.StreamString(vals)) })
+	c.Family(dollarFamily(vals))
 	if !allRepresentable(vals) || hasSystemShape(vals) {
 		c.Skip("outside the data model / Go API domain")
 		return
